@@ -171,3 +171,11 @@ Definition tc_sub (a b : tcounter) : bool :=
   forallb (fun kc => counter_sub (tc_get a (fst kc)) (tc_get b (fst kc))
                      && counter_sub (tc_get b (fst kc)) (tc_get a (fst kc))) a.
 Definition tc_eqb (a b : tcounter) : bool := tc_sub a b && tc_sub b a.
+
+(* TopologyCounter._to_key / __getitem__                            (536-551)
+   A key given as a scalar i is (i,); any iterable of indexes is sorted: the counter is indexed
+   by the SET of sample-set indexes, in whatever order (and container) they are written. *)
+Definition to_key (sample_set_indexes : list Z) : key := stable_sort Z.leb sample_set_indexes.
+Definition tc_getitem (tc : tcounter) (sample_set_indexes : list Z) : counter :=
+  tc_get tc (to_key sample_set_indexes).
+Definition counter_eqb (a b : counter) : bool := counter_sub a b && counter_sub b a.
